@@ -28,14 +28,14 @@ ASSUMPTIONS = [
     'presence nodes are named by plain host name',
 ]
 TRUSTED = ['pbt/fakezk.py', 'pbt/mastersim.py']
-BUDGET = {'quick': 2400, 'thorough': 72000}
+BUDGET = {'quick': 2000, 'thorough': 72000}
 
 PROFILE = {
     'weights': {'crashcycle': 8, 'crashrestart': 3, 'down': 4, 'up': 2,
                 'reboot': 2, 'rm': 3, 'prio': 3, 'app': 12, 'cycle': 3,
                 'adv_ret': 3, 'state': 2, 'rmsrvrace': 3, 'shrink': 4, 'allocscrash': 4, 'cellrm': 2, 'cellev': 2, 'reparent': 1,
                 'cellrmcrash': 3, 'rmbucket': 1, 'rmbucketcrash': 3, 'badparentcrash': 3,
-                'rmsrvcrashrestart': 3},
+                'rmsrvcrashrestart': 2},
     'force': ['crashcycle', 'down', 'rmsrvrace', 'shrink', 'allocscrash',
               'cellrmcrash', 'rmbucketcrash', 'badparentcrash',
               'rmsrvcrashrestart'],
